@@ -17,6 +17,13 @@ CHECKS = {
              "against real Cadence objects on random and exhaustive-short operation sequences after every operation, and the property "
              "statement is re-evaluated directly on the implementation.",
         design="3/C18", technique="Coq refinement proof (guarded list state machine) + op-sequence correspondence by vm_compute"),
+    "C09": dict(
+        text="Theorems for all inputs over exact rationals (range for every bit width, monotonicity, the affine formula, zero variance, "
+             "prefix of leading samples) and for all call histories (statistics used at call n come from call n - n mod p for p>0 and from the "
+             "first call after the last reset otherwise; complex = two independent real quantisers). quantize_real is tied bit for bit to a "
+             "PrimFloat (binary64) twin and to the rational model on an exact dyadic domain; RealQuantizer/ComplexQuantizer histories are "
+             "run against the refresh state machine; range/monotonicity/formula/zero-variance are re-evaluated on the implementation.",
+        design="3/C09", technique="Coq proof over Q + induction on call histories; PrimFloat bit-exact twin; history correspondence"),
 }
 
 PENDING_REASON = "check not built yet in this session (planned in DESIGN.md section 3); no claim is made for it in this commit"
